@@ -18,3 +18,4 @@ UNITS += [IF.unit_add_field_format()]
 from contracts import tools as TL
 UNITS += [TL.unit_validated_python_name(), TL.unit_generated_tokens()]
 UNITS += [IF.unit_cid_init()]
+UNITS += [FL.unit_set_example()]
